@@ -116,6 +116,9 @@ def plan(tier, seed):
          A.render(l=None, eom=False), d + 1),
         (corner("real", prefix=[("declare", "g", "rydberg_global"), ("declare", "r", "rydberg_local", "q0"), ("slm", ["q0", "q2"])],
                 qubits=3, name="ising-slm-two-of-three"), A.render(l="r", eom=False), d),
+        (corner("unit8", prefix=[("config_dmm", "m2", "dmm_0"), ("config_dmm", "m1", "dmm_0"), ("declare", "g", "rydberg_global")],
+                qubits=3, name="two-maps-on-one-dmm-id"),
+         A.render(l=None, dmm="dmm_0", eom=False) + [("add_dmm", ["C", 40, -0.75], "dmm_0_1", "no-delay")], d),
         # qubit ids that are integers / strings whose sorted or index order differs from the register order
         (corner("unit8", prefix=A.GR, qubits=3, qid_alias=INTPERM, name="unit8-int-ids-out-of-order"), A.render(l="r"), d),
         (corner("unit", prefix=XYT, qubits=3, qid_alias=INTPERM, name="xy-int-ids-out-of-order"), SHORT, d),
